@@ -7,6 +7,8 @@ CORRS = {
     "cc": corr_cc.cc,
     "k3": corr_it.k3,
     "k2": corr_rt.k2,
+    "k1i": corr_rt.k1i,
+    "race": corr_rt.race,
 }
 
 
@@ -47,6 +49,10 @@ def main(argv):
         ax = L["axioms"].get(th)
         okth = ax is not None and set(ax) <= ALLOWED_AXIOMS
         obligations.append(("theorem " + th, okth, ax))
+    for fm in P.get("facts", []):
+        okf = bool(L.get("facts", {}).get(fm))
+        obligations.append(("source facts " + fm + " (declarations of the modelled file unchanged)", okf,
+                            None if okf else L.get("facts_changed")))
     if L["forbidden"]:
         obligations.append(("no sorry/admit/native_decide/axiom in sources", False, L["forbidden"][:5]))
     else:
@@ -77,7 +83,7 @@ def main(argv):
     # failing inputs; model-level ones mean the model no longer describes the code: search the
     # impl-level results of this run for a failing input, else report no-failing-input-found.
     def impl_level(name, d):
-        if name == "k1":
+        if name in ("k1", "k1i", "race"):
             return bool(d.get("impl_vs_spec", True))
         if name == "k2":
             return bool(d.get("impl_deeper"))
